@@ -1114,3 +1114,50 @@ def readexactly_fragmentations(tier, seed):
     if got != big:
         failures.append(dict(case="9216-byte body in 4096-byte fragments", got=repr(got)[:200]))
     return dict(evaluations=evals, failures=failures)
+
+
+# ---------------------------------------------------------------- _send_stream_message: one frame, handed over whole
+
+
+class _StreamWriterStub:
+    """asyncio.StreamWriter as far as sending a frame goes: write(data) buffers synchronously (never yields), drain()
+    is awaited and may yield to other coroutines that share the writer."""
+
+    def __init__(self, name):
+        self.name = name
+
+    def write(self, data):
+        cur().event("writer.write", payload=data)
+
+    def drain(self):
+        from vc import vcrt
+
+        def body():
+            cur().event("writer.drain")
+
+        return vcrt.Coro(lambda: body(), (), {})
+
+
+def _ssm_finish(c, outcome, args, old):
+    """The whole encoded message goes to the writer in ONE write call, before the function first yields: several
+    coroutines share one StreamWriter (SocketAsyncRPCClient.__call__), and a frame written in pieces with a drain in
+    between lets another caller's frame land inside it."""
+    if outcome[0] != "return":
+        return
+    writes = [e for e in c.trace if e.kind == "writer.write"]
+    awaits = [e for e in c.trace if e.kind in ("await", "writer.drain")]
+    c.prove("one_write_per_frame", tm.mk_bool(len(writes) == 1), kind="trace", detail=f"{len(writes)} write call(s)")
+    if len(writes) == 1:
+        want = enc_t(I(args["call_id"]), *_body_parts(args["body"]))
+        c.prove("the_write_is_the_whole_frame", tm.Eq(S(writes[0].payload), want), kind="post")
+        c.prove("nothing_is_awaited_before_the_frame_is_written", tm.mk_bool(all(a.index > writes[0].index for a in awaits)), kind="trace")
+    c.prove("the_writer_is_drained", tm.mk_bool(any(e.kind == "writer.drain" for e in c.trace)), kind="trace")
+
+
+@contract("stepup/core/rpc.py::_send_stream_message", props=["C16"])
+class send_stream_message:
+    args = dict(writer=ty.Make(_StreamWriterStub), call_id=ty.Int, body=ty.Opt(ty.Bytes))
+    requires = lambda call_id, body: (call_id >= 0) & (call_id < TWO64) & wrap_bool(
+        tm.Lt(tm.Len(_body_parts(body)[1]), tm.mk_int(TWO64)))
+    finish = _ssm_finish
+    modifies = []
